@@ -15,7 +15,7 @@ grep -v '^#' "$here/selftest/mutants/expect.tsv" | while IFS="$(printf '\t')" re
   rm -rf "$tmp/repo"; mkdir "$tmp/repo"
   (cd /repo && git ls-files -z | xargs -0 cp --parents -t "$tmp/repo") 2>/dev/null
   cp /repo/go.sum "$tmp/repo/" 2>/dev/null
-  if ! (cd "$tmp/repo" && patch -p1 -s < "$here/selftest/mutants/$patch"); then
+  if ! (cd "$tmp/repo" && patch -p1 -s < "$here/selftest/mutants/$patch" >/dev/null); then
     echo "SELFTEST-ERROR $patch does not apply"; echo 1 > "$tmp/fail"; continue
   fi
   out=$("$here/bin/vcgen" check --verif "$here" --repo "$tmp/repo" --no-evidence --replay-dir "$tmp/replays" "$prop" 2>&1); rc=$?
